@@ -273,8 +273,19 @@ Definition c14_chan_ok (c : nat) (steps : list step) (obs : list opobs) : bool :
        end
      else true)) [] 0%nat steps obs.
 
+(* the broker assumption of C14: within every step each Basic.Cancel the client wrote on the
+   channel is answered by a CancelOk for that very tag, in order (a scripted reply carrying
+   another tag, or a Cancel left unanswered, is not a conforming broker) *)
+Definition cancels_conform (c : nat) (obs : list opobs) : bool :=
+  forallb (fun ob =>
+    let asked := map o_str (filter (fun w => Nat.eqb (o_chan w) c && oname_eqb (o_name w) WCancel)
+                                   (ob_written ob)) in
+    let answered := map f_str (filter (fun f => fname_eqb (f_name f) NCancelOk) (on_chan c (ob_delivered ob))) in
+    list_eqb bytes_eqb asked answered ||
+    negb (st_eqb (sn_conn (ob_snap ob)) OPEN)) obs.
+
 Definition c14_ok (i : scenario) (obs : list opobs) : bool :=
-  forallb (fun c => c14_chan_ok c (snd i) obs) (seq 1 (fst i)).
+  forallb (fun c => negb (cancels_conform c obs) || c14_chan_ok c (snd i) obs) (seq 1 (fst i)).
 
 (* ---------- C07: broker-reported errors raised faithfully, only where they belong ---------- *)
 (* expectation carried per channel: the error the next operation must raise *)
